@@ -77,3 +77,34 @@ Theorem C20_padding_asfound_refuted :
             /\ exists s', inject_byte_padding_block s = Done s'.
 Proof. exact padding_asfound_refuted. Qed.
 Print Assumptions C20_padding_asfound_refuted.
+
+(* No panic anywhere in the stream glue.  `inv` (proofs/NoPanic_proofs.v) constrains the output
+   cursor: pending bytes lie inside the buffer the cursor points into, and when a flush still
+   owes its padding block there is room for it behind them.  From ANY initialised state
+   satisfying it, for ANY operation, input size, output capacity and ANY back-end answers
+   within their size contract (answer_ok2), a stream call cannot reach a Panic outcome of the
+   model (slice index out of range, write past the tiny buffer or the storage, missing payload
+   byte) and re-establishes the invariant; likewise take_output.  A fresh encoder after any
+   sequence of set_parameter calls satisfies it at its first call. *)
+From V Require Import proofs.NoPanic_proofs.
+
+Theorem C20_no_panic : forall t0 s op payload offered capn,
+  initialized s = true -> inv s -> meta_ok s -> all_ok2 (oracle s) ->
+  (op = OpMeta -> offered <= lenN payload /\ offered < 2 ^ 32) ->
+  call_ok (compress_stream_from t0 s op payload offered capn).
+Proof. exact stream_call_no_panic. Qed.
+Print Assumptions C20_no_panic.
+
+Theorem C20_no_panic_take : forall s n, inv s ->
+  exists bs s', take_output s n = Done (bs, s') /\ inv s'.
+Proof. exact take_output_no_panic. Qed.
+Print Assumptions C20_no_panic_take.
+
+Theorem C20_inv_initial : forall s, fresh s -> initialized s = false ->
+  inv (ensure_initialized s) /\ meta_ok (ensure_initialized s) /\ oracle (ensure_initialized s) = oracle s.
+Proof. exact fresh_inv. Qed.
+Print Assumptions C20_inv_initial.
+
+Theorem C20_fresh_params : fresh init_st /\ forall s id v, fresh s -> fresh (snd (set_parameter s id v)).
+Proof. split; [exact fresh_init|exact fresh_set_parameter]. Qed.
+Print Assumptions C20_fresh_params.
